@@ -109,7 +109,8 @@ def run(ctx):
 
     def mc(run):
         name, nc, ne, R, faults, live = run
-        cfg = tlc.cfg_text(spec="FairSpec" if live else "Spec", constants=consts(R, faults), invariants=INV,
+        # "a long time passes" is explored on the smallest instance only (it doubles the state space)
+        cfg = tlc.cfg_text(spec="FairSpec" if live else "Spec", constants=consts(R, faults, 1 if (nc, ne) == (1, 1) else 0), invariants=INV,
                            properties=["ExactlyOnceOrRaise"] if live else None, view=None if live else "view")
         d = tlc.stage(scratch, "mc_" + name, ["Acked"], {"MC.tla": mc_mod(nc, ne), "MC.cfg": cfg})
         r = tlc.check(d, "MC", workers=6, coverage=True, deadlock=False, timeout=3000, light=False, heap="8g")
